@@ -295,10 +295,15 @@ package lib
 //@ func (r *RegisteredDecoys) getExpiredRegistrations() []string
 //@   requires r != nil && !held(&r.m) && rheld(&r.m) == 0
 //@   ensures @C08: forall j int :: 0 <= j && j < len(result) ==> result[j] in r.decoysTimeouts && regExpired(r.decoysTimeouts[result[j]], r)
+// C08 "never kept past their lifetime": the sweep list is complete - every record that was expired when the scan began
+// is listed (the ghost clock only advances, so it is expired when the scan reaches it), however many there are.
+//@   ensures @C08: forall k string :: old(k in r.decoysTimeouts && r.decoysTimeouts[k] != nil && regExpired(r.decoysTimeouts[k], r)) ==> (exists j int :: 0 <= j && j < len(expiredRegTimeoutIndices) && expiredRegTimeoutIndices[j] == k)
+//@   ensures @C08: result == expiredRegTimeoutIndices
 //@   ensures @C09: !held(&r.m) && rheld(&r.m) == 0
 //@ loop 1:
-//@   invariant rheld(&r.m) == 1 && !held(&r.m) && fresh(expiredRegTimeoutIndices)
+//@   invariant rheld(&r.m) == 1 && !held(&r.m) && fresh(expiredRegTimeoutIndices) && now() >= old(now())
 //@   invariant forall j int :: 0 <= j && j < len(expiredRegTimeoutIndices) ==> expiredRegTimeoutIndices[j] in r.decoysTimeouts && regExpired(r.decoysTimeouts[expiredRegTimeoutIndices[j]], r)
+//@   invariant forall k string :: visited(r.decoysTimeouts, k) && old(k in r.decoysTimeouts && r.decoysTimeouts[k] != nil && regExpired(r.decoysTimeouts[k], r)) ==> (exists j int :: 0 <= j && j < len(expiredRegTimeoutIndices) && expiredRegTimeoutIndices[j] == k)
 //@   modifies now()
 
 // C08 "forgotten entirely": removing an index removes its timeout record (and the registration, and an emptied set).
